@@ -38,10 +38,181 @@ RoOutcomes(impl, st, c) ==
     ELSE IF c.op \in {"subwrite", "submkdir"} THEN SubThenMutate(impl, st, c)
     ELSE Outcomes(impl, st, c)
 
-WOutcomes(w, impl, st, c) ==
-    CASE w = "none" -> Outcomes(impl, st, c)
-      [] w = "rofs" -> RoOutcomes(impl, st, c)
+(***************************************************************************)
+(* FailFS (C12).  Every method consults the failure function for one       *)
+(* primitive of the FnVFS enumeration and then forwards; composites        *)
+(* (Create, WriteFile, ReadFile, ReadDir, MkdirTemp) are re-implemented    *)
+(* over the wrapper, so they consult one primitive per inner step.         *)
+(* A plan [fn, k] makes the k-th consultation of primitive fn (counted     *)
+(* since the wrapper was created) return the injected error EINJECTED.     *)
+(* The wrapper state x = [plan, fc] (fc: consultations so far per          *)
+(* primitive).  An outcome carries cons (the primitives this call          *)
+(* consulted, in order) and the new x.                                     *)
+(***************************************************************************)
+NoPlan == [fn |-> "none", k |-> 0]
+X0 == [plan |-> NoPlan, fc |-> EmptyFn]
+CountOf(fc, fn) == IF fn \in DOMAIN fc THEN fc[fn] ELSE 0
+Bump(fc, fn) == (fn :> CountOf(fc, fn) + 1) @@ fc
+RECURSIVE BumpAll(_, _)
+BumpAll(fc, fns) == IF fns = <<>> THEN fc ELSE BumpAll(Bump(fc, Head(fns)), Tail(fns))
+
+\* does the i-th consultation of this call (primitives cons) hit the plan?
+HitAt(x, cons, i) ==
+    x.plan.fn # "none" /\ cons[i] = x.plan.fn
+    /\ CountOf(x.fc, x.plan.fn) + Cardinality({j \in 1..i : cons[j] = x.plan.fn}) = x.plan.k
+
+SinglePrim(c) ==
+    CASE c.op = "mkdir" -> "Mkdir" [] c.op = "mkdirall" -> "MkdirAll" [] c.op = "remove" -> "Remove"
+      [] c.op = "removeall" -> "RemoveAll" [] c.op = "rename" -> "Rename" [] c.op = "link" -> "Link"
+      [] c.op = "symlink" -> "Symlink" [] c.op = "truncate" -> "Truncate" [] c.op = "chmod" -> "Chmod"
+      [] c.op = "chown" -> "Chown" [] c.op = "lchown" -> "Lchown" [] c.op = "chtimes" -> "Chtimes"
+      [] c.op = "chdir" -> "Chdir" [] c.op = "stat" -> "Stat" [] c.op = "lstat" -> "Lstat"
+      [] c.op = "readlink" -> "Readlink" [] c.op = "evalsymlinks" -> "EvalSymlinks" [] c.op = "getwd" -> "Getwd"
+      [] c.op = "createtemp" -> "CreateTemp" [] c.op = "open" -> "OpenFile"
+      [] c.op = "read" -> "FileRead" [] c.op = "readat" -> "FileReadAt" [] c.op \in {"write", "writestring"} -> "FileWrite"
+      [] c.op = "writeat" -> "FileWriteAt" [] c.op = "seek" -> "FileSeek" [] c.op = "ftruncate" -> "FileTruncate"
+      [] c.op = "fstat" -> "FileStat" [] c.op = "fsync" -> "FileSync" [] c.op = "fchmod" -> "FileChmod"
+      [] c.op = "fchown" -> "FileChown" [] c.op = "fchdir" -> "FileChdir" [] c.op = "close" -> "FileClose"
+      [] c.op = "freaddir" -> "FileReadDir" [] c.op = "freaddirnames" -> "FileReaddirnames"
+      [] OTHER -> "none"
+
+FOut(o, cons, x) == [res |-> o.res, st |-> o.st, kf |-> o.kf, inv |-> o.inv, skip |-> o.skip,
+                     cons |-> cons, x |-> [x EXCEPT !.fc = BumpAll(@, cons)]]
+Injected(st) == Strict(Fail("EINJECTED", st))
+
+\* a call that consults exactly one primitive and forwards
+FailSingle(impl, st, c, x) ==
+    LET fn == SinglePrim(c)   cons == <<fn>> IN
+    IF HitAt(x, cons, 1) THEN {FOut(Injected(st), cons, x)}
+    ELSE {FOut(o, cons, x) : o \in Outcomes(impl, st, c)}
+
+OpenStep(impl, st, c) == {o \in Outcomes(impl, st, [c EXCEPT !.op = "open"]) : TRUE}
+
+\* OpenFile then Close by the caller (openclose, create): <<OpenFile, FileClose>>
+FailOpenClose(impl, st, c, x) ==
+    LET oc == IF c.op = "create" THEN [c EXCEPT !.op = "openclose", !.flag = CreateFlags, !.perm = 438] ELSE c IN
+    IF HitAt(x, <<"OpenFile">>, 1) THEN {FOut(Injected(st), <<"OpenFile">>, x)}
+    ELSE UNION {IF o.res.err # "ok" THEN {FOut(o, <<"OpenFile">>, x)}
+                ELSE IF HitAt(x, <<"OpenFile", "FileClose">>, 2)
+                     THEN {FOut([o EXCEPT !.res = [R0 EXCEPT !.err = "EINJECTED"]], <<"OpenFile", "FileClose">>, x)}
+                     ELSE {FOut(o, <<"OpenFile", "FileClose">>, x)}
+                : o \in Outcomes(impl, st, oc)}
+
+\* CreateTemp hands out a FailFile, which the caller closes: <<CreateTemp, FileClose>>
+FailCreateTemp(impl, st, c, x) ==
+    IF HitAt(x, <<"CreateTemp">>, 1) THEN {FOut(Injected(st), <<"CreateTemp">>, x)}
+    ELSE UNION {IF o.res.err # "ok" THEN {FOut(o, <<"CreateTemp">>, x)}
+                ELSE {FOut(o, <<"CreateTemp", "FileClose">>, x)}
+                : o \in Outcomes(impl, st, c)}
+
+\* avfs.WriteFile over the wrapper: OpenFile(WRONLY|CREATE|TRUNC), FileWrite, FileClose
+FailWriteFile(impl, st, c, x) ==
+    LET oc == [c EXCEPT !.op = "openclose", !.flag = <<"WRONLY", "CREATE", "TRUNC">>] IN
+    IF HitAt(x, <<"OpenFile">>, 1) THEN {FOut(Injected(st), <<"OpenFile">>, x)}
+    ELSE UNION {
+        IF o.res.err # "ok" THEN {FOut(o, <<"OpenFile">>, x)}
+        ELSE LET all == <<"OpenFile", "FileWrite", "FileClose">>
+                 full == Outcomes(impl, st, c) IN
+             IF HitAt(x, all, 2) THEN {FOut([o EXCEPT !.res = [R0 EXCEPT !.err = "EINJECTED"]], all, x)}   \* created/truncated, nothing written
+             ELSE IF HitAt(x, all, 3) THEN {FOut([f EXCEPT !.res = [R0 EXCEPT !.err = "EINJECTED"]], all, x) : f \in full}
+             ELSE {FOut(f, all, x) : f \in full}
+        : o \in Outcomes(impl, st, oc)}
+
+\* avfs.ReadFile over the wrapper: ReadFile, OpenFile(RDONLY), FileStat, FileRead (twice when the file is
+\* not empty: the second read finds the end), FileClose; failures of Stat and Close are ignored (as os.ReadFile)
+FailReadFile(impl, st, c, x) ==
+    LET oc == [c EXCEPT !.op = "openclose", !.flag = <<"RDONLY">>]
+        full == Apply(st, c)
+        nread == IF full.res.err = "ok" /\ full.res.n > 0 THEN 2 ELSE 1
+        all == <<"ReadFile", "OpenFile", "FileStat">> \o [i \in 1..nread |-> "FileRead"] \o <<"FileClose">> IN
+    IF HitAt(x, <<"ReadFile">>, 1) THEN {FOut(Injected(st), <<"ReadFile">>, x)}
+    ELSE IF HitAt(x, <<"ReadFile", "OpenFile">>, 2) THEN {FOut(Injected(st), <<"ReadFile", "OpenFile">>, x)}
+    ELSE UNION {
+        IF o.res.err # "ok" THEN {FOut(o, <<"ReadFile", "OpenFile">>, x)}
+        ELSE IF HitAt(x, all, 4) THEN {FOut(Injected(st), <<"ReadFile", "OpenFile", "FileStat", "FileRead", "FileClose">>, x)}
+        ELSE IF nread = 2 /\ HitAt(x, all, 5)
+             THEN {FOut(Strict([res |-> [full.res EXCEPT !.err = "EINJECTED"], st |-> st]), all, x)}
+        ELSE {FOut(f, all, x) : f \in Outcomes(impl, st, c)}
+        : o \in Outcomes(impl, st, oc)}
+
+\* avfs.ReadDir over the wrapper: ReadDir, OpenFile(RDONLY), FileReadDir, FileClose (ignored)
+FailReadDir(impl, st, c, x) ==
+    LET oc == [c EXCEPT !.op = "openclose", !.flag = <<"RDONLY">>]
+        all == <<"ReadDir", "OpenFile", "FileReadDir", "FileClose">> IN
+    IF HitAt(x, <<"ReadDir">>, 1) THEN {FOut(Injected(st), <<"ReadDir">>, x)}
+    ELSE IF HitAt(x, <<"ReadDir", "OpenFile">>, 2) THEN {FOut(Injected(st), <<"ReadDir", "OpenFile">>, x)}
+    ELSE UNION {
+        IF o.res.err # "ok" THEN {FOut(o, <<"ReadDir", "OpenFile">>, x)}
+        ELSE IF HitAt(x, all, 3) THEN {FOut(Injected(st), all, x)}
+        ELSE {FOut(f, all, x) : f \in Outcomes(impl, st, c)}
+        : o \in Outcomes(impl, st, oc)}
+
+\* avfs.MkdirTemp over the wrapper: MkdirTemp, Mkdir
+FailMkdirTemp(impl, st, c, x) ==
+    IF HitAt(x, <<"MkdirTemp">>, 1) THEN {FOut(Injected(st), <<"MkdirTemp">>, x)}
+    ELSE IF HitAt(x, <<"MkdirTemp", "Mkdir">>, 2) THEN {FOut(Injected(st), <<"MkdirTemp", "Mkdir">>, x)}
+    \* when Mkdir reports a missing directory, MkdirTemp stats the directory to tell which path is missing
+    ELSE {FOut(o, IF o.res.err = "ENOENT" THEN <<"MkdirTemp", "Mkdir", "Stat">> ELSE <<"MkdirTemp", "Mkdir">>, x)
+          : o \in Outcomes(impl, st, c)}
+
+\* Sub(dir), then WriteFile / Mkdir of dir/q through the FailFS it returns (same failure function)
+FailSubThen(impl, st, c, x) ==
+    LET r == Res(st, c.p, TRUE)
+        x1 == [x EXCEPT !.fc = Bump(@, "Sub")]
+        inner == [c EXCEPT !.op = IF c.op = "subwrite" THEN "writefile" ELSE "mkdir",
+                           !.p = [abs |-> c.p.abs, parts |-> c.p.parts \o c.q.parts], !.perm = IF c.op = "subwrite" THEN 420 ELSE 493]
+        pre(o) == [o EXCEPT !.cons = <<"Sub">> \o @]
+        bad(e) == {FOut(Strict(Fail(e, st)), <<"Sub">>, x)} IN
+    IF HitAt(x, <<"Sub">>, 1) THEN {FOut(Injected(st), <<"Sub">>, x)}
+    ELSE IF impl = "orefafs" THEN bad("EPERM") \cup bad("EACCES")
+    ELSE IF r.err # "ok" THEN bad(r.err)
+    ELSE IF r.id = 0 THEN bad("ENOENT")
+    ELSE IF ~IsDir(st, r.id) THEN bad("ENOTDIR")
+    ELSE {pre(o) : o \in (IF c.op = "subwrite" THEN FailWriteFile(impl, st, inner, x1) ELSE FailSingle(impl, st, inner, x1))}
+
+(* KF30  avfs.ReadFile and avfs.ReadDir ignore a failing Stat and a failing Close of the file they opened
+         themselves (as os.ReadFile does): through FailFS the composite succeeds although a primitive it is
+         built on was made to fail.  Strictly, the injected error is returned; the deviation keeps the result. *)
+IgnoredHit(c, x, cons) ==
+    \E i \in DOMAIN cons : HitAt(x, cons, i) /\ cons[i] \in {"FileStat", "FileClose"}
+StrictOrKF30(c, outs, x) ==
+    UNION {IF c.op \in {"readfile", "readdir"} /\ o.res.err = "ok" /\ IgnoredHit(c, x, o.cons)
+           THEN {[o EXCEPT !.res = [R0 EXCEPT !.err = "EINJECTED"]]}
+                \cup (IF "KF30" \in OpenKF THEN {[o EXCEPT !.kf = "KF30"]} ELSE {})
+           ELSE {o} : o \in outs}
+
+FailOutcomes(impl, st, c, x) == StrictOrKF30(c,
+    CASE c.op \in {"openclose", "create"} -> FailOpenClose(impl, st, c, x)
+      [] c.op \in {"subwrite", "submkdir"} -> FailSubThen(impl, st, c, x)
+      [] c.op = "writefile" -> FailWriteFile(impl, st, c, x)
+      [] c.op = "readfile"  -> FailReadFile(impl, st, c, x)
+      [] c.op = "readdir"   -> FailReadDir(impl, st, c, x)
+      [] c.op = "mkdirtemp" -> FailMkdirTemp(impl, st, c, x)
+      [] c.op = "createtemp" -> FailCreateTemp(impl, st, c, x)
+      [] c.op = "setumask"  -> {FOut(o, <<>>, x) : o \in Outcomes(impl, st, c)}
+      [] OTHER -> FailSingle(impl, st, c, x), x)
+
+\* the read-only failure function: as RoFS, the base can never change
+FailRoOutcomes(impl, st, c) ==
+    IF c.op \in RoMutatingNs \ {"create", "writefile", "mkdirtemp"} THEN Refused(st)
+    ELSE IF c.op \in {"create", "writefile"} THEN Refused(st)
+    ELSE IF c.op = "mkdirtemp" THEN Refused(st)
+    ELSE IF c.op \in {"open", "openclose"} THEN
+        (IF c.flag # <<"RDONLY">> THEN Refused(st) ELSE Outcomes(impl, st, c))
+    ELSE IF c.op \in RoMutatingH THEN
+        (IF ~ValidH(st, c) THEN {Strict(Fail("NOHANDLE", st))} ELSE Refused(st) \cup {Strict(Fail("CLOSED", st))})
+    ELSE IF c.op \in {"subwrite", "submkdir"} THEN SubThenMutate(impl, st, c)
+    ELSE Outcomes(impl, st, c)
+
+WithX(o, x) == [res |-> o.res, st |-> o.st, kf |-> o.kf, inv |-> o.inv, skip |-> o.skip, cons |-> <<>>, x |-> x]
+
+\* x is the wrapper's own state (FailFS: plan and counters); outcomes carry cons and the new x
+WOutcomes(w, impl, st, c, x) ==
+    CASE w = "none"   -> {WithX(o, x) : o \in Outcomes(impl, st, c)}
+      [] w = "rofs"   -> {WithX(o, x) : o \in RoOutcomes(impl, st, c)}
+      [] w = "failro" -> {WithX(o, x) : o \in FailRoOutcomes(impl, st, c)}
+      [] w = "failfs" -> FailOutcomes(impl, st, c, x)
 
 \* the tree (and the modification times, carried separately) never change through a read-only wrapper
-BaseUntouched(w, st, o) == w = "rofs" => Proj(o.st) = Proj(st)
+BaseUntouched(w, st, o) == w \in {"rofs", "failro"} => Proj(o.st) = Proj(st)
 =============================================================================
